@@ -15,5 +15,7 @@ func init() {
 		gfSpec{Pkg: "./pkg/core/native", Recv: "NEO", Func: "dropCandidateIfZero", Lean: "neoDropCandidateIfZero"},
 		gfSpec{Pkg: "./pkg/core/native", Recv: "nep17TokenNative", Func: "transferDeferrable", Lean: "nep17Transfer"},
 		gfSpec{Pkg: "./pkg/core/native", Recv: "GAS", Func: "increaseBalance", Lean: "gasIncreaseBalance"},
+		gfSpec{Pkg: "./pkg/config", Recv: "ProtocolConfiguration", Func: "GetCommitteeSize", Lean: "cfgGetCommitteeSize"},
+		gfSpec{Pkg: "./pkg/config", Recv: "ProtocolConfiguration", Func: "GetNumOfCNs", Lean: "cfgGetNumOfCNs"},
 	)
 }
